@@ -602,12 +602,19 @@ type ShardCounts struct {
 	// UnusableDataShardCount is the number of parity shards that
 	// are unusable, i.e. missing or corrupt.
 	UnusableParityShardCount int
+
+	// MisplacedDataFileCount is the number of data files that are
+	// missing or differ from the protected content although all
+	// of their data shards are usable, i.e. were found at other
+	// offsets or in other files. Such files need repair, but
+	// repairing them consumes no parity shards.
+	MisplacedDataFileCount int
 }
 
 // RepairNeeded returns whether repair is needed, i.e. whether
-// UnusableDataShardCount is non-zero.
+// UnusableDataShardCount or MisplacedDataFileCount is non-zero.
 func (fc ShardCounts) RepairNeeded() bool {
-	return fc.UnusableDataShardCount > 0
+	return fc.UnusableDataShardCount > 0 || fc.MisplacedDataFileCount > 0
 }
 
 // RepairPossible returns whether repair is possible i.e. whether
@@ -621,13 +628,20 @@ func (d *Decoder) ShardCounts() ShardCounts {
 	usableDataShardCount := 0
 	unusableDataShardCount := 0
 
+	misplacedDataFileCount := 0
+
 	for _, info := range d.fileIntegrityInfos {
+		allShardsUsable := true
 		for _, shardInfo := range info.shardInfos {
 			if shardInfo.data == nil {
 				unusableDataShardCount++
+				allShardsUsable = false
 			} else {
 				usableDataShardCount++
 			}
+		}
+		if allShardsUsable && !info.ok(d.sliceByteCount) {
+			misplacedDataFileCount++
 		}
 	}
 
@@ -647,6 +661,7 @@ func (d *Decoder) ShardCounts() ShardCounts {
 		UnusableDataShardCount:   unusableDataShardCount,
 		UsableParityShardCount:   usableParityShardCount,
 		UnusableParityShardCount: unusableParityShardCount,
+		MisplacedDataFileCount:   misplacedDataFileCount,
 	}
 }
 
